@@ -258,12 +258,43 @@ def _stage_all(p: Dict[str, Any], limit: int, stats: Dict[str, int]) -> Dict[str
     return out
 
 
+def _stage_all_driver(p: Dict[str, Any], limit: int, stats: Dict[str, int]) -> Dict[str, List[Any]]:
+    """The same arrivals handed to the batch driver's own back-pressure helper (its disk writes captured)."""
+    import clematis.engine.orchestrator.parallel as par
+    out: Dict[str, List[Any]] = {}
+    real = par._append_unbuffered
+
+    def capture(file_path, payload):
+        out.setdefault(file_path, []).append(payload)
+
+    par._append_unbuffered = capture
+    stager = IOL.enable_staging(limit)
+    try:
+        for rec in p["records"]:
+            key = IOL.default_key_for(file_path=rec["file"], turn_id=rec["turn"], slice_idx=rec["slice"])
+            par._stage_or_flush(stager, rec["file"], key, dict(rec["payload"]))
+        for rec in stager.drain_sorted():
+            capture(rec.file_path, rec.payload)
+    finally:
+        IOL.disable_staging()
+        par._append_unbuffered = real
+    stats["driver_helper_runs"] = stats.get("driver_helper_runs", 0) + 1
+    return out
+
+
 def _stager(p: Dict[str, Any], stats: Dict[str, int]) -> List[Dict[str, Any]]:
+    viol = _stager_via(p, stats, _stage_all)
+    if not viol:
+        viol = _stager_via(p, stats, _stage_all_driver)
+    return viol
+
+
+def _stager_via(p: Dict[str, Any], stats: Dict[str, int], stage_all) -> List[Dict[str, Any]]:
     viol: List[Dict[str, Any]] = []
     saved = os.environ.get("CI")
     os.environ["CI"] = "true"
     try:
-        outs = {lim: _stage_all(p, lim, stats) for lim in p["limits"]}
+        outs = {lim: stage_all(p, lim, stats) for lim in p["limits"]}
     finally:
         if saved is None:
             os.environ.pop("CI", None)
